@@ -1117,6 +1117,57 @@ def generate_evolvent_ctl(cls):
     return "\n".join(out) + "\nend Gen.EvolventCtl\n", []
 
 
+def generate_wiring(mods):
+    """statement trees of the glue classes: every method of `Solver`, the constructors of `Process`, `Method`, `OptimizationTask` (+ `Calculate`),
+    `Solution`, `SolverParameters`, `Point`, `FunctionValue`, `Trial`, and every method of `SearchDataItem` -- with the defaults of their parameters"""
+    out = ["-- GENERATED by harness/src2lean.py from the SOURCE TEXT of iOpt/solver.py, solution.py, solver_parametrs.py, trial.py, method/optim_task.py,\n"
+           "-- method/process.py (__init__), method/method.py (__init__), method/search_data.py (SearchDataItem) under /repo; do not edit.\n"
+           "import IOptGen.ProcessSrc\n"
+           "/-!\nThe glue of the library as statement trees (`Gen.ProcSrc.Stmt`): which object is built from which, which component is handed to which\n"
+           "constructor, what the facade `Solver` delegates to, which defaults the parameters have.\n-/\nnamespace Gen.Wiring\nopen Gen.ProcSrc\n"]
+    names = []
+    for cls, only in mods:
+        cname = cls.__name__
+        for attr, fn in cls.__dict__.items():
+            if only is not None and attr not in only:
+                continue
+            if not callable(fn):
+                continue
+            try:
+                fa = func_ast(fn)
+            except (OSError, TypeError):
+                continue
+            if not isinstance(fa, ast.FunctionDef):
+                continue
+            if attr.startswith("_") and not (attr.startswith("__") and attr.endswith("__")):
+                continue        # a private helper: inlined where it is called
+            fa = _inline_private_helpers(cls, fa, {a_ for a_ in cls.__dict__ if not a_.startswith("_") or a_.startswith("__")})
+            nm = cname[0].lower() + cname[1:] + "_" + attr.strip("_")
+            names.append(nm)
+            params = [a.arg for a in fa.args.args]
+            defaults = [ast.unparse(d) for d in fa.args.defaults]
+            out.append(f"/-- parameters of `{cname}.{attr}` -/\ndef {nm}Params : List String := "
+                       + "[" + ", ".join(_lean_str(x) for x in params) + "]\n")
+            out.append(f"/-- default values of the trailing parameters of `{cname}.{attr}` (source text) -/\ndef {nm}Defaults : List String := "
+                       + "[" + ", ".join(_lean_str(x) for x in defaults) + "]\n")
+            out.append(f"/-- body of `{cname}.{attr}` -/\ndef {nm} : List Stmt :=\n  " + _stmts_to_lean(_nodoc(fa.body), 2) + "\n")
+    out.append("/-- the methods translated above -/\ndef methods : List String := [" + ", ".join(_lean_str(n_) for n_ in names) + "]\n")
+    return "\n".join(out) + "\nend Gen.Wiring\n", []
+
+
+def wiring_classes():
+    from iOpt.solver import Solver
+    from iOpt.method.process import Process
+    from iOpt.method.method import Method
+    from iOpt.method.optim_task import OptimizationTask
+    from iOpt.solution import Solution
+    from iOpt.solver_parametrs import SolverParameters
+    from iOpt.trial import Point, FunctionValue, Trial
+    from iOpt.method.search_data import SearchDataItem
+    return [(Solver, None), (Process, {"__init__"}), (Method, {"__init__"}), (OptimizationTask, None), (Solution, None),
+            (SolverParameters, None), (Point, None), (FunctionValue, None), (Trial, None), (SearchDataItem, None)]
+
+
 def problem_classes():
     from iOpt.problems.rastrigin import Rastrigin
     from iOpt.problems.xsquared import XSquared
@@ -1356,6 +1407,8 @@ if __name__ == "__main__":
     if "--proc" in sys.argv:
         from iOpt.method.process import Process
         text, errors = generate_process(Process)
+    if "--wiring" in sys.argv:
+        text, errors = generate_wiring(wiring_classes())
     if "--prob" in sys.argv:
         text, errors = generate_problems(problem_classes())
     print(text)
